@@ -87,7 +87,7 @@ def run(report):
                                {"row": row, "justfile": print_row_justfile(c), "argv": R.cmdline(c["cfg"], c["invs"]),
                                 "observed": {"exit": r["exit"], "events": r["events"]}})
             continue
-        me = R.canon_model_events(m["events"])
+        me = R.canon_model_events(m["events"], R.c_loq(c))
         distinct.add(json_key(me))
         # direct oracle on the implementation: the documented rule, for linewise recipes
         if not row["script"]:
